@@ -110,4 +110,15 @@ static inline void xv_hostile(xv_rng *r, char *buf, size_t n) {
 }
 
 
+
+
+/* Hostile process environment for the calls under observation (each is legal for a host program and must not change any result):
+ * - the stack below the caller is filled with 0xFF bytes, so that a read of a never-written local shows up as NaN / -1 instead of a
+ *   leftover that happens to be harmless;
+ * - XV_FPTRAP: floating-point exceptions for invalid operation, division by zero and overflow trap (as under gfortran -ffpe-trap or
+ *   feenableexcept in the host): a query that computes 0/0 or log(-1) before rejecting its arguments dies instead of answering. */
+#include <fenv.h>
+static void __attribute__((noinline)) xv_poison_stack(void) { volatile unsigned char b[24576]; size_t i; for (i = 0; i < sizeof b; i += 8) *(volatile uint64_t *)(b + i) = 0xFFFFFFFFFFFFFFFFULL; }
+static void xv_fptrap_from_env(void) { if (getenv("XV_FPTRAP")) feenableexcept(FE_INVALID | FE_DIVBYZERO | FE_OVERFLOW); }
+
 #endif
